@@ -94,7 +94,7 @@ class Ctx:
         tlc.clean_work(self.work.name)
 
 
-def relieve_jit(limit: int = 30000) -> bool:
+def relieve_jit(limit: int = 24000) -> bool:
     """XLA's CPU backend maps memory for every compiled executable; a long run that creates thousands of distinct small
     programs (eager op-by-op code, fresh policy objects) reaches vm.max_map_count (65530) and LLVM aborts with
     "Cannot allocate memory".  Drop the compilation caches when the process has many mappings."""
